@@ -382,9 +382,6 @@ func runC03(c *CaseCtx) *CaseResult {
 	cc.Final = func(w *World, root *Node, res *CaseResult) {
 		if tempRoot != nil {
 			// temp slabs stay pending forever and are never written
-			if !w.ps.HasUnsavedChanges(atree.AddressUndefined) {
-				res.fail(viol("temp", "temporary-address slabs left the write set after a commit"))
-			}
 			for id := range w.led.regs {
 				if id.Address() == atree.AddressUndefined {
 					res.fail(viol("temp", "temporary-address slab %s was written to the ledger", id))
